@@ -58,6 +58,7 @@ var sigOIDs = [][]int{
 
 var keyOIDs = [][]int{
 	{1, 2, 840, 113549, 1, 1, 1}, {1, 2, 840, 113549, 1, 1, 10}, {1, 2, 840, 113549, 1, 1, 7}, {1, 2, 840, 10040, 4, 1}, {1, 2, 840, 10045, 2, 1}, {1, 3, 101, 112}, {1, 3, 101, 110}, {2, 5, 8, 1, 1}, {1, 3, 132, 1, 12}, {1, 2, 3, 4},
+	{1, 3, 101, 111}, {1, 3, 101, 113}, {1, 3, 101, 109}, {1, 3, 101, 114}, {1, 2, 840, 113549, 1, 3, 1}, {1, 2, 840, 10046, 2, 1}, {1, 3, 132, 1, 13}, {1, 2, 840, 113549, 1, 1, 11}, {1, 2, 840, 10045, 4, 3, 2},
 }
 
 var hashOIDs = [][]int{
@@ -123,7 +124,7 @@ func genAlgSpec(t *rapid.T, label string, table [][]int, key bool) AlgSpec {
 		a.Params = pPSS
 	}
 	if key && uni(t, label+"natural")%2 == 0 { // the parameters the algorithm calls for
-		a.Params = []int{pNull, pPSS, pOAEP, pDSA, pCurve, pAbsent, pAbsent, pNull, pCurve, pAbsent}[a.OID]
+		a.Params = []int{pNull, pPSS, pOAEP, pDSA, pCurve, pAbsent, pAbsent, pNull, pCurve, pAbsent, pAbsent, pAbsent, pAbsent, pAbsent, pDSA, pDSA, pCurve, pNull, pAbsent}[a.OID]
 	}
 	switch a.Params {
 	case pGarbage, pOctets:
@@ -145,7 +146,7 @@ func genAlgID(t *rapid.T) AlgIDCase {
 	kinds := []string{"rsa1024", "rsa2048", "p224", "p256", "p384", "p521", "ed25519", "dsa1024"}
 	c.KeyKind = kinds[uni(t, "keykind")%len(kinds)]
 	if uni(t, "keymatch")%2 == 0 { // a key of the kind the algorithm names
-		c.KeyKind = []string{"rsa1024", "rsa2048", "rsa1024", "dsa1024", []string{"p224", "p256", "p384", "p521"}[c.Key.Curve%4], "ed25519", "ed25519", "rsa1024", "p256", "p256"}[c.Key.OID]
+		c.KeyKind = []string{"rsa1024", "rsa2048", "rsa1024", "dsa1024", []string{"p224", "p256", "p384", "p521"}[c.Key.Curve%4], "ed25519", "ed25519", "rsa1024", "p256", "p256", "ed25519", "ed25519", "ed25519", "ed25519", "dsa1024", "dsa1024", "p256", "rsa1024", "p256"}[c.Key.OID]
 	}
 	c.SigBytes = []int{0, 1, 64, 128, 256}[uni(t, "sigbytes")%5]
 	return c
@@ -237,13 +238,13 @@ func keyBits(kind string) []byte {
 	return derx.BitString([]byte{4, 1, 2, 3}, 0)
 }
 
-func algidInputs(c AlgIDCase) (cert, csr, crl []byte) {
+func algidInputs(c AlgIDCase) (cert, csr, crl, spki []byte) {
 	sig := c.Sig.der(sigOIDs)
 	outer := sig
 	if c.Outer != nil {
 		outer = c.Outer.der(sigOIDs)
 	}
-	spki := derx.Seq(c.Key.der(keyOIDs), keyBits(c.KeyKind))
+	spki = derx.Seq(c.Key.der(keyOIDs), keyBits(c.KeyKind))
 	sigVal := derx.BitString(bytes.Repeat([]byte{0x5a}, c.SigBytes), 0)
 	name := pki.CN("algid").DER()
 	validity := derx.Seq(derx.Time(pki.Epoch), derx.Time(pki.Epoch.AddDate(1, 0, 0)))
@@ -257,7 +258,9 @@ func algidInputs(c AlgIDCase) (cert, csr, crl []byte) {
 
 func checkAlgID(t *testing.T, c AlgIDCase) harness.Verdict {
 	var v harness.Verdict
-	cert, csr, crl := algidInputs(c)
+	cert, csr, crl, spki := algidInputs(c)
+	r4 := runAll(&v, spki, nil) // the bare SubjectPublicKeyInfo: the PKIX entry point sees every key algorithm OID
+	v.Class("spki:" + r4["ParsePKIXPublicKey"])
 	res := runAll(&v, cert, nil)
 	r2 := runAll(&v, csr, nil)
 	r3 := runAll(&v, crl, nil)
